@@ -45,6 +45,10 @@ impl<'a> WireFormat<'a> for NAPTR<'a> {
     where
         Self: Sized,
     {
+        if data.len() < *position + 4 {
+            return Err(crate::SimpleDnsError::InsufficientData);
+        }
+
         let order = u16::from_be_bytes(data[*position..*position + 2].try_into()?);
         *position += 2;
         let preference = u16::from_be_bytes(data[*position..*position + 2].try_into()?);
